@@ -1,6 +1,121 @@
 /-
-  C04 — property theorems (stub; to be filled in).
+  C04 — transaction blocks commit everything on success and nothing on error or panic.
+  Theorems over Model/Tx.lean (`run` = gorm's Transaction/Begin/Commit/Rollback/SavePoint/RollbackTo transcribed over a
+  snapshot-stack database with a fault oracle per driver call; `spec` = functional reference).
 -/
+import GormModel.Model.Tx
+import GormModel.Lemmas.Tx
 namespace Gorm
+open Gorm.Tx
+
+def C04_cfg0 : Cfg := { prep := false, dis := false, skip := false }
+
+/-- minimal witness of finding F18: outer block { write 1; ignored nested block { write 2 } ; return nil } -/
+def C04_stickyWitness : List Prog :=
+  [.blk [.write (.ins 1) true, .blk [.write (.ins 2) true] .retNil 1 false] .retNil 2 true]
+
+/-- FINDING F18 (counterexample, kernel-checked): the nested block's SAVEPOINT (driver call 2) fails; the outer function
+    returns nil, COMMIT succeeds and row 1 is durable — but Transaction returns the stale SAVEPOINT error. -/
+theorem C04_sticky_counterexample :
+    let r := run C04_cfg0 (fun k => k == 2) C04_stickyWitness { committed := [] }
+    r.2 = .err [.inj 2] ∧ r.1.committed = [1] ∧ r.1.stale = true ∧ r.1.rbFault = false ∧
+    spec C04_cfg0 (fun k => k == 2) C04_stickyWitness [] = ([1], .ok) := by
+  decide
+
+/-- boundary of the claim: a fault injected into the deferred ROLLBACK TO (driver call 4) is discarded by gorm
+    (finisher_api.go:635), so the failing nested block's write 2 survives and is committed. Such faults are outside the
+    property's fault list (BEGIN/COMMIT/SAVEPOINT/statement); the theorems exclude them by `rbFault = false`. -/
+theorem C04_rollbackto_fault_example :
+    let p : List Prog := [.blk [.write (.ins 1) true, .blk [.write (.ins 2) true] .retErr 1 false] .retNil 2 true]
+    let r := run C04_cfg0 (fun k => k == 4) p { committed := [] }
+    r.1.rbFault = true ∧ r.1.committed = [1, 2] := by
+  decide
+
+/-- NO LEAK, for every program tree (any depth, any outcome assignment: nil / error / panic, manual sequences included),
+    every fault oracle and every configuration: after the program no driver transaction is open and no connection is
+    checked out (`DB.open` counts both) — even when BEGIN, COMMIT, SAVEPOINT, ROLLBACK TO or any statement fails, and also
+    in runs that exhibit finding F18. -/
+theorem C04_no_leak (c : Cfg) (o : Oracle) (ps : List Prog) (db : DB)
+    (hwf : wfBody false ps = true) (hd : db.tx = none) :
+    (run c o ps db).1.tx = none ∧ (run c o ps db).1.open = 0 := by
+  have hroot : c.root.pool.isCommitter = false := by
+    unfold Cfg.root; cases c.prep <;> rfl
+  have h := runBody_frame c o ps c.root db (by rw [hroot]; exact hwf)
+  have ht := (h.2.2 hroot rfl hd).1
+  unfold run
+  exact ⟨ht, by simp [DB.open, ht]⟩
+
+/-- inside a transaction nothing reaches the committed store and the transaction stays open: every statement of a
+    function body run on a transaction handle (nested blocks of any depth, failing or not, save points, faults) -/
+theorem C04_body_isolated (c : Cfg) (o : Oracle) (ps : List Prog) (h : Handle) (db : DB)
+    (hp : h.pool.isCommitter = true) (hwf : wfBody true ps = true) :
+    (runBody c o h ps db).1.committed = db.committed ∧ (runBody c o h ps db).1.tx.isSome = db.tx.isSome :=
+  (runBody_frame c o ps h db (by rw [hp]; exact hwf)).2.1 hp
+
+theorem runChild_blk_root (c : Cfg) (o : Oracle) (h : Handle) (body : List Prog) (out : Out) (tag : Nat) (must : Bool) (db : DB)
+    (hp : h.pool.isCommitter = false) :
+    runChild c o h (.blk body out tag must) db =
+      if (gormBegin o h (markStale h db)).2.err ≠ [] then
+        ((gormBegin o h (markStale h db)).1, h, .err (gormBegin o h (markStale h db)).2.err)
+      else finishRoot o h out tag (runBody c o (gormBegin o h (markStale h db)).2 body (gormBegin o h (markStale h db)).1) := by
+  unfold runChild
+  simp only [hp, Bool.false_eq_true, if_false]
+
+/-- ALL OR NOTHING for a top-level Transaction block, any body (any depth), any outcome, any oracle, any configuration,
+    in a run without stale use of a poisoned handle (the negation of finding F18's pattern):
+    * no transaction is left open;
+    * if Transaction does not return nil (function error, panic, failed BEGIN, failed COMMIT, failed statement that the
+      function propagated) the committed store is exactly what it was before;
+    * if it returns nil then the function returned nil and the committed store is exactly the working store the function
+      body left in the transaction (all of its surviving writes, nothing else). -/
+theorem C04_block_all_or_nothing (c : Cfg) (o : Oracle) (body : List Prog) (out : Out) (tag : Nat) (must : Bool) (db : DB)
+    (hwf : wfBody true body = true) (hd : db.tx = none)
+    (hs : (runChild c o c.root (.blk body out tag must) db).1.stale = false) :
+    (runChild c o c.root (.blk body out tag must) db).1.tx = none ∧
+    ((runChild c o c.root (.blk body out tag must) db).2.2 ≠ .ok →
+        (runChild c o c.root (.blk body out tag must) db).1.committed = db.committed) ∧
+    ((runChild c o c.root (.blk body out tag must) db).2.2 = .ok →
+        out = .retNil ∧ (runBody c o (gormBegin o c.root db).2 body (gormBegin o c.root db).1).2.2 = .ok ∧
+        ∃ t, (runBody c o (gormBegin o c.root db).2 body (gormBegin o c.root db).1).1.tx = some t ∧
+             (runChild c o c.root (.blk body out tag must) db).1.committed = t.cur) := by
+  have hroot : c.root.pool.isCommitter = false := by
+    unfold Cfg.root; cases c.prep <;> rfl
+  have herr : c.root.err = [] := rfl
+  have hms : markStale c.root db = db := by simp [markStale, herr]
+  have hfr := runChild_frame c o (.blk body out tag must) c.root db (by simpa [wfChild] using hwf)
+  have hb := gormBegin_root o c.root db hroot herr
+  refine ⟨(hfr.2.2 hroot herr hd).1, ?_⟩
+  rw [runChild_blk_root c o c.root body out tag must db hroot, hms] at hs ⊢
+  by_cases hbe : (gormBegin o c.root db).2.err ≠ []
+  · rw [if_pos hbe]
+    exact ⟨fun _ => hb.2.1, fun h => by simp at h⟩
+  · rw [if_neg hbe] at hs ⊢
+    have hbody := runBody_frame c o body (gormBegin o c.root db).2 (gormBegin o c.root db).1 (by rw [hb.1]; exact hwf)
+    have hpool : (runBody c o (gormBegin o c.root db).2 body (gormBegin o c.root db).1).2.1.pool.isCommitter = true := by
+      rw [hbody.1]; exact hb.1
+    have hdur := finishRoot_durability o c.root out tag _ _ _ hpool hs
+    have hcm : (runBody c o (gormBegin o c.root db).2 body (gormBegin o c.root db).1).1.committed = db.committed :=
+      ((hbody.2.1 hb.1).1).trans hb.2.1
+    exact ⟨fun hne => (hdur.1 hne).trans hcm, fun hok => by
+      obtain ⟨h1, h2, t, ht, hc⟩ := hdur.2 hok
+      exact ⟨h2, h1, t, ht, hc⟩⟩
+
+/-- SAVEPOINT / ROLLBACK TO EXACTNESS (manual sequence on a clean transaction handle, any configuration, any oracle that
+    spares the SAVEPOINT and the ROLLBACK TO statement themselves): after `SavePoint(n)`, ANY number of writes — failing or
+    not — and `RollbackTo(n)`, the working store is exactly the store at the save point, the save-point stack is the one
+    right after `SavePoint(n)` (the save point stays usable) and RollbackTo returns nil. -/
+theorem C04_savepoint_exact (c : Cfg) (o : Oracle) (h : Handle) (hp : h.pool.isCommitter = true) (he : h.err = [])
+    (n : Nat) (ws : List Prog) (hws : ∀ p ∈ ws, ∃ w m, p = Prog.write w m) (db : DB) (v : Store) (S : List (SpName × Store))
+    (ht : db.tx = some { cur := v, saves := S }) (hsp : o db.calls = false)
+    (hrb : o (runBody c o h ws (runChild c o h (.sp n true) db).1).1.calls = false) :
+    (runChild c o h (.rb n true) (runBody c o h ws (runChild c o h (.sp n true) db).1).1).1.tx =
+      some { cur := v, saves := (.manual n, v) :: S } ∧
+    (runChild c o h (.rb n true) (runBody c o h ws (runChild c o h (.sp n true) db).1).1).2.2 = .ok :=
+  savepoint_exact c o h hp he n ws hws db v S ht hsp hrb
+
+/-- non-vacuity: a program satisfying the hypotheses (no stale use; commit succeeds; row 1 durable) -/
+example :
+    let r := run C04_cfg0 (fun k => k == 99) [.blk [.write (.ins 1) true] .retNil 0 true] { committed := [] }
+    r.1.stale = false ∧ r.2 = .ok ∧ r.1.committed = [1] := by decide
 
 end Gorm
